@@ -366,6 +366,214 @@ def _check_to_from_dict(tree):
             raise Unrecognised(f"SerializableMixin.__init_subclass__: `{w}` not found")
 
 
+# ---- tie audit: sites that used to be tied by the sampled correspondence only ----------------------------
+
+UTILS = "simple_parsing/utils.py"
+FIELDS = "simple_parsing/helpers/fields.py"
+
+TEST_PREDICATE = {"is_dataclass_type(t)": "is_dataclass_type", "is_dict(t)": "is_dict", "is_set(t)": "is_set",
+                  "is_tuple(t)": "is_tuple", "is_list(t)": "is_list", "is_union(t)": "is_union", "is_enum(t)": "is_enum",
+                  "is_typevar(t)": "is_typevar", "is_literal(t)": "is_literal"}
+
+
+def _annot_predicates(dec_tree, utils_tree, order):
+    """[(tag, Gallina apred)] in dispatch order: each utils predicate get_decoding_fn calls, by its body"""
+    _expect_body(utils_tree, "_mro", [
+        "if t is None:\n    return []",
+        "if hasattr(t, '__mro__'):\n    return t.__mro__\nelif get_origin(t) is type:\n    return []\nelif hasattr(t, 'mro') and callable(t.mro):\n    return t.mro()",
+        "return []"])
+    _expect_body(utils_tree, "get_type_arguments", ["return get_args(container_type)"])
+
+    def pred(fn):
+        body = _body_text(find_def(utils_tree, fn))
+        if len(body) == 1 and body[0].startswith("return ") and body[0].endswith(" in _mro(t)"):
+            return f"PMroHasAny [{cstr(body[0][len('return '):-len(' in _mro(t)')])}]"
+        if body == ["mro = _mro(t)", "return dict in mro or Mapping in mro or c_abc.Mapping in mro"]:
+            return 'PMroHasAny ["dict"; "Mapping"; "c_abc.Mapping"]'
+        if body == ["return get_origin(t) in (Literal, LiteralAlt)"]:
+            return 'POriginIn ["Literal"; "LiteralAlt"]'
+        if body == ["if sys.version_info[:2] >= (3, 10) and isinstance(t, types.UnionType):\n    return True",
+                    "return getattr(t, '__origin__', '') == Union"]:
+            return 'POriginIs "Union"'
+        if body == ["if inspect.isclass(t):\n    return issubclass(t, enum.Enum)", "return Enum in _mro(t)"]:
+            return "PEnumSubclass"
+        if body == ["return inspect.isclass(obj) and dataclasses.is_dataclass(obj)"]:
+            return "PIsDataclassClass"
+        if body == ["return type(t) is TypeVar"]:
+            return "PIsTypeVar"
+        raise Unrecognised(f"utils.{fn}: body is not a modelled predicate: {' | '.join(body)[:300]}")
+
+    tag_test = {v[0]: k for k, v in DISPATCH_TESTS.items()}
+    rows = []
+    for tag in order:
+        test = tag_test[tag]
+        if test == "t in _decoding_fns":
+            q = "PInRegistry"
+        elif test == "t is Any":
+            q = "PIsAny"
+        else:
+            q = pred(TEST_PREDICATE[test])
+        rows.append(f"({tag}, {q})")
+    # the names must be utils' own (decoding.py imports them from simple_parsing.utils)
+    imp = [a.name for n in dec_tree.body if isinstance(n, ast.ImportFrom) and n.module == "simple_parsing.utils" for a in n.names]
+    for fn in TEST_PREDICATE.values():
+        if fn not in imp:
+            raise Unrecognised(f"decoding.py does not import {fn} from simple_parsing.utils")
+    return rows
+
+
+FROM_DICT = {
+    "none": "if d is None:\n    return None",
+    "copy": "obj_dict: dict[str, Any] = d.copy()",
+    "init": "init_args: dict[str, Any] = {}",
+    "noninit": "non_init_args: dict[str, Any] = {}",
+    "type_copy": "if DC_TYPE_KEY in obj_dict:\n    target = obj_dict.pop(DC_TYPE_KEY)\n    live_dc_type = _locate(target)\n    return from_dict(live_dc_type, obj_dict, drop_extra_fields=drop_extra_fields)",
+    "type_arg": "if DC_TYPE_KEY in d:\n    target = d.pop(DC_TYPE_KEY)\n    live_dc_type = _locate(target)\n    return from_dict(live_dc_type, d, drop_extra_fields=drop_extra_fields)",
+    "drop": "if drop_extra_fields is None:\n    drop_extra_fields = not getattr(cls, 'decode_into_subclasses', False)\n    if cls in {Serializable, FrozenSerializable, SerializableMixin}:\n        drop_extra_fields = False",
+    "extra0": "extra_args = obj_dict",
+    "extra": "if extra_args:\n    if drop_extra_fields:\n        extra_args.clear()\n    else:\n        derived_classes: list[type[DataclassT]] = []\n        for subclass in all_subclasses(cls):\n            if subclass is not cls:\n                derived_classes.append(subclass)\n        req_init_field_names = set(chain(extra_args, init_args, non_init_args))\n        derived_classes.sort(key=lambda dc: len(fields(dc)))\n        for child_class in derived_classes:\n            child_init_field_names = {f.name for f in fields(child_class)}\n            if child_init_field_names >= req_init_field_names:\n                return from_dict(child_class, d, drop_extra_fields=False)",
+    "update": "init_args.update(extra_args)",
+    "setattr": "for name, value in non_init_args.items():\n    setattr(instance, name, value)",
+    "ret": "return instance",
+}
+
+
+def _from_dict_facts(tree):
+    """(from_dict(None) is None, where DC_TYPE_KEY is popped from, class raised when the constructor call fails)"""
+    fd = find_def(tree, "from_dict")
+    kinds = []
+    ctor_error = None
+    inv = {v: k for k, v in FROM_DICT.items()}
+    for st in clean(fd.body):
+        txt = unparse(st)
+        if txt in inv:
+            kinds.append(inv[txt])
+        elif isinstance(st, ast.For) and unparse(st.iter) == "fields(cls) if is_dataclass(cls) else []":
+            kinds.append("loop")          # its body is checked by _check_to_from_dict
+        elif isinstance(st, ast.Try):
+            if ([unparse(x) for x in clean(st.body)] != ["instance = cls(**init_args)"] or len(st.handlers) != 1
+                    or st.orelse or st.finalbody or unparse(st.handlers[0].type) != "TypeError"):
+                raise Unrecognised("from_dict: the constructor call")
+            hb = clean(st.handlers[0].body)
+            if len(hb) != 1 or not isinstance(hb[0], ast.Raise) or not isinstance(hb[0].exc, ast.Call) \
+                    or not isinstance(hb[0].exc.func, ast.Name):
+                raise Unrecognised("from_dict: what the constructor failure is turned into")
+            ctor_error = hb[0].exc.func.id
+            kinds.append("ctor")
+        else:
+            raise Unrecognised(f"from_dict: statement not modelled: {txt[:200]}")
+    tail = ["drop", "loop", "extra0", "extra", "update", "ctor", "setattr", "ret"]
+    heads = {("none", "copy", "init", "noninit", "type_copy"): (True, "PopCopy"),
+             ("copy", "init", "noninit", "type_copy"): (False, "PopCopy"),
+             ("none", "type_arg", "copy", "init", "noninit"): (True, "PopArgument"),
+             ("none", "init", "noninit", "type_arg", "copy"): (True, "PopArgument")}
+    if kinds[-len(tail):] != tail or tuple(kinds[:-len(tail)]) not in heads:
+        raise Unrecognised(f"from_dict: statement order {kinds}")
+    none_ok, site = heads[tuple(kinds[:-len(tail)])]
+    return none_ok, site, ctor_error
+
+
+def _hooks_wired(fields_tree):
+    """metadata keys that field() writes among the three that to_dict / decode_field read"""
+    fn = find_def(fields_tree, "field")
+    texts = []
+    for st in ast.walk(fn):
+        if isinstance(st, (ast.Expr, ast.If)):
+            texts.append(unparse(st))
+    wired = []
+    if "_metadata.update(dict(to_dict=to_dict))" in texts:
+        wired.append("to_dict")
+    for k in ("encoding_fn", "decoding_fn"):
+        if f"if {k} is not None:\n    _metadata.update(dict({k}={k}))" in texts:
+            wired.append(k)
+    from .pyast import kw_defaults
+    d = kw_defaults(fn)
+    for k, want in (("to_dict", "True"), ("encoding_fn", "None"), ("decoding_fn", "None")):
+        if k not in d or unparse(d[k]) != want:
+            raise Unrecognised(f"field(): default of {k}")
+    # _metadata must end up as the metadata of the dataclasses field
+    if not any("metadata=_metadata" in unparse(n) for n in ast.walk(fn) if isinstance(n, ast.Call)):
+        raise Unrecognised("field(): _metadata is not passed on as metadata=")
+    return wired
+
+
+def _api_table(tree):
+    """dumps_json/loads_json and dumps_yaml/loads_yaml (functions and SerializableMixin methods): which codec"""
+    from .pyast import kw_defaults
+    _expect_body(tree, "dumps", ["if not isinstance(dc, dict):\n    dc = to_dict(dc)", "return dump_fn(dc)"])
+    _expect_body(tree, "loads", ["d = load_fn(s)", "return from_dict(cls, d, drop_extra_fields=drop_extra_fields)"])
+    _expect_body(tree, "dumps_json", ["kwargs.setdefault('cls', SimpleJsonEncoder)", "return dumps(dc, dump_fn=partial(dump_fn, **kwargs))"])
+    _expect_body(tree, "loads_json", ["return loads(cls, s, drop_extra_fields=drop_extra_fields, load_fn=partial(load_fn, **kwargs))"])
+    _expect_body(tree, "dumps_yaml", ["import yaml", "if dump_fn is None:\n    dump_fn = yaml.dump", "return dumps(dc, dump_fn=partial(dump_fn, **kwargs))"])
+    _expect_body(tree, "loads_yaml", ["import yaml", "load_fn = load_fn or yaml.safe_load",
+                                      "return loads(cls, s, drop_extra_fields=drop_extra_fields, load_fn=partial(load_fn, **kwargs))"])
+    _expect_body(tree, "load", [
+        "if isinstance(path, str):\n    path = Path(path)",
+        "if load_fn is None and isinstance(path, Path):\n    d = read_file(path)\nelif load_fn:\n    with path.open() if isinstance(path, Path) else path as f:\n        d = load_fn(f)\nelse:\n    raise ValueError(\"A loading function must be passed, since we got an io stream, and the extension can't be retrieved.\")",
+        "if drop_extra_fields is None and getattr(cls, 'decode_into_subclasses', None) is not None:\n    drop_extra_fields = not getattr(cls, 'decode_into_subclasses')",
+        "return from_dict(cls, d, drop_extra_fields=drop_extra_fields)"])
+    for fn, k, want in (("dumps", "dump_fn", "json.dumps"), ("loads", "load_fn", "json.loads"), ("dumps_json", "dump_fn", "json.dumps"),
+                        ("loads_json", "load_fn", "json.loads"), ("dumps_yaml", "dump_fn", "None"), ("loads_yaml", "load_fn", "None"),
+                        ("load", "load_fn", "None"), ("load", "drop_extra_fields", "None")):
+        d = kw_defaults(find_def(tree, fn))
+        if k not in d or unparse(d[k]) != want:
+            raise Unrecognised(f"{fn}: default of {k}")
+    mixin = {"to_dict": ["return to_dict(self, dict_factory=dict_factory, recurse=recurse, save_dc_types=save_dc_types)"],
+             "from_dict": ["return from_dict(cls, obj, drop_extra_fields=drop_extra_fields)"],
+             "dumps_json": ["return dumps_json(self, dump_fn=dump_fn, **kwargs)"],
+             "dumps_yaml": ["return dumps_yaml(self, dump_fn=dump_fn, **kwargs)"],
+             "loads_json": ["return loads_json(cls, s, drop_extra_fields=drop_extra_fields, load_fn=partial(load_fn, **kwargs))"],
+             "loads_yaml": ["return loads_yaml(cls, s, drop_extra_fields=drop_extra_fields, load_fn=load_fn, **kwargs)"],
+             "save": ["save(self, path=path, format=format)"],
+             "load": ["return load(cls, path=path, drop_extra_fields=drop_extra_fields, load_fn=load_fn, **kwargs)"]}
+    for m, want in mixin.items():
+        _expect_body(tree, m, want, "SerializableMixin")
+    for m, k, want in (("dumps_json", "dump_fn", "json.dumps"), ("loads_json", "load_fn", "json.loads"),
+                       ("dumps_yaml", "dump_fn", "None"), ("loads_yaml", "load_fn", "None"), ("to_dict", "save_dc_types", "False"),
+                       ("to_dict", "recurse", "True"), ("to_dict", "dict_factory", "dict")):
+        d = kw_defaults(find_def(tree, m, "SerializableMixin"))
+        if k not in d or unparse(d[k]) != want:
+            raise Unrecognised(f"SerializableMixin.{m}: default of {k}")
+    return [("json", "CJson"), ("yaml", "CYaml")]
+
+
+def _decode_field_hook_first(dec_tree):
+    got = _body_text(find_def(dec_tree, "decode_field"))
+    want_prefix = ["name = field.name", "field_type = field.type",
+                   "custom_decoding_fn = field.metadata.get('decoding_fn')",
+                   "if custom_decoding_fn is not None:\n    return custom_decoding_fn(raw_value)",
+                   "if isinstance(field_type, str) and containing_dataclass:\n    field_type = evaluate_string_annotation(field_type, containing_dataclass)",
+                   "decoding_function = get_decoding_fn(field_type)"]
+    call = "with warnings.catch_warnings(record=True, **_kwargs) as warning_messages:\n    if is_dataclass_type(field_type) and drop_extra_fields is not None:\n        decoded_value = decoding_function(raw_value, drop_extra_fields=drop_extra_fields)\n    else:\n        decoded_value = decoding_function(raw_value)"
+    if got[:len(want_prefix)] != want_prefix or call not in got or got[-1] != "return decoded_value":
+        raise Unrecognised(f"decode_field: body is not the modelled one: {' | '.join(got)[:400]}")
+    return True
+
+
+def _type_value_sep(tree):
+    td = find_def(tree, "to_dict")
+    pre = [unparse(x) for x in clean(td.body) if not isinstance(x, ast.For)]
+    want = ["if not is_dataclass(dc):\n    raise ValueError('to_dict should only be called on a dataclass instance.')",
+            "d: dict[str, Any] = dict_factory()", None, "return d"]
+    if len(pre) != 4 or pre[0] != want[0] or pre[1] != want[1] or pre[3] != want[3]:
+        raise Unrecognised("to_dict: statements around the field loop")
+    blk = [x for x in clean(td.body) if isinstance(x, ast.If) and unparse(x.test) == "save_dc_types"]
+    if len(blk) != 1:
+        raise Unrecognised("to_dict: save_dc_types block")
+    inner = [unparse(x) for x in clean(blk[0].body)]
+    if inner[:2] != ["class_name = dc.__class__.__qualname__", "module = type(dc).__module__"] or len(inner) != 3:
+        raise Unrecognised("to_dict: save_dc_types block body")
+    last = clean(blk[0].body)[2]
+    if not (isinstance(last, ast.If) and unparse(last.test) == "'<locals>' in class_name" and len(clean(last.orelse)) == 1):
+        raise Unrecognised("to_dict: <locals> guard")
+    asg = clean(last.orelse)[0]
+    if not (isinstance(asg, ast.Assign) and unparse(asg.targets[0]) == "d[DC_TYPE_KEY]" and isinstance(asg.value, ast.BinOp)
+            and isinstance(asg.value.left, ast.BinOp) and unparse(asg.value.left.left) == "module"
+            and unparse(asg.value.right) == "class_name" and isinstance(asg.value.left.right, ast.Constant)):
+        raise Unrecognised(f"to_dict: value stored under DC_TYPE_KEY: {unparse(asg)}")
+    return const(asg.value.left.right, str)
+
+
 def emit(repo: str) -> str:
     dec = _parse(repo, DEC)
     enc = _parse(repo, ENC)
@@ -376,6 +584,14 @@ def emit(repo: str) -> str:
     key = const(module_assign(ser, "DC_TYPE_KEY"), str)
     sfx = _suffix_table(ser)
     _check_to_from_dict(ser)
+    utils = _parse(repo, UTILS)
+    fields_t = _parse(repo, FIELDS)
+    preds = _annot_predicates(dec, utils, order)
+    none_ok, pop_site, ctor_error = _from_dict_facts(ser)
+    wired = _hooks_wired(fields_t)
+    api = _api_table(ser)
+    hook_first = _decode_field_hook_first(dec)
+    sep = _type_value_sep(ser)
     return (
         "From SPV Require Import Base.Str Model.Serial Gen.FactsBool.\nOpen Scope string_scope.\n"
         f"Definition DISPATCH_ORDER : list dtag := [{'; '.join(order)}].\n"
@@ -386,12 +602,30 @@ def emit(repo: str) -> str:
         "(* _decode_bool sends a str through utils.str2bool (translated by translate/Bool.py) *)\n"
         "Definition decode_bool_str : string -> option bool := str2bool_gen.\n"
         "(* the model instantiated with the regenerated facts; the set-iteration oracle and the user's hooks stay arguments *)\n"
-        "Definition enc_gen := enc ENCODE_TABLE.\n"
-        "Definition encode_gen sigma encf := enc ENCODE_TABLE sigma encf false.\n"
-        "Definition to_dict_gen sigma encf := enc ENCODE_TABLE sigma encf true.\n"
+        "(* utils.is_dict / is_set / ... as get_decoding_fn calls them, by their bodies *)\n"
+        f"Definition ANNOT_PREDICATES : list (dtag * apred) := [{'; '.join(preds)}].\n"
+        "(* from_dict: None passes through; where DC_TYPE_KEY is popped from; keys that are no field; constructor failure *)\n"
+        f"Definition FROM_DICT_NONE : bool := {'true' if none_ok else 'false'}.\n"
+        f"Definition FROM_DICT_POP : pop_site := {pop_site}.\n"
+        "Definition FROM_DICT_EXTRAS : extra_policy := ExtraDropped.\n"
+        f"Definition FROM_DICT_CTOR_ERROR : string := {cstr(ctor_error)}.\n"
+        "(* decode_field returns metadata['decoding_fn'](raw) before looking at the annotation *)\n"
+        f"Definition DECODE_FIELD_HOOK_FIRST : bool := {'true' if hook_first else 'false'}.\n"
+        "(* metadata keys written by helpers.fields.field among those read by to_dict / decode_field *)\n"
+        f"Definition HOOKS_WIRED : list string := [{'; '.join(cstr(k) for k in wired)}].\n"
+        "(* dumps_json/loads_json, dumps_yaml/loads_yaml (yaml.dump / yaml.safe_load) *)\n"
+        f"Definition API_TABLE : list (string * codec) := [{'; '.join(f'({cstr(a)}, {b})' for a, b in api)}].\n"
+        f"Definition TYPE_VALUE_SEP : string := {cstr(sep)}.\n"
+        "Definition enc_gen := enc ENCODE_TABLE HOOKS_WIRED.\n"
+        "Definition encode_gen sigma encf := enc ENCODE_TABLE HOOKS_WIRED sigma encf false.\n"
+        "Definition to_dict_gen sigma encf := enc ENCODE_TABLE HOOKS_WIRED sigma encf true.\n"
         "(* _decode_int evaluates float(v) even when v already is an int *)\n"
         f"Definition DECODE_INT_FLOAT_CMP : bool := {'true' if cmp_ints else 'false'}.\n"
-        "Definition decode_gen := decode DISPATCH_ORDER UNION_STRATEGY DC_TYPE_KEY decode_bool_str DECODE_INT_FLOAT_CMP.\n"
+        "Definition decode_gen := decode DISPATCH_ORDER UNION_STRATEGY DC_TYPE_KEY decode_bool_str DECODE_INT_FLOAT_CMP\n"
+        "  ANNOT_PREDICATES FROM_DICT_NONE FROM_DICT_CTOR_ERROR FROM_DICT_EXTRAS DECODE_FIELD_HOOK_FIRST HOOKS_WIRED.\n"
+        "Definition transport_of_api (name : string) : option transport :=\n"
+        "  if String.eqb name \"dict\" then Some TrDict else\n"
+        "  match codec_of_suffix API_TABLE name with Some c => transport_of_codec c | None => None end.\n"
         "Definition transport_of_suffix (s : string) : option transport :=\n"
         "  match codec_of_suffix SUFFIX_TABLE s with Some c => transport_of_codec c | None => None end.\n"
     )
